@@ -452,16 +452,23 @@ def recover_events(args):
     events = []
     rot = 0
     for d in ds:
-        sk = SigningKey.from_secret_exponent(d, curve, hashfunc=IdHash)
+        try:
+            sk = SigningKey.from_secret_exponent(d, curve, hashfunc=IdHash)
+        except BaseException as e:  # noqa  (a key that cannot be built is C01 / C03's finding; here: no signature, no verdict)
+            events.append({"op": "recover", "d": d, "k": ks[0], "digest": b2l(digests[0]), "allow": True, "signed": False,
+                           "ok": False, "keys": [], "n": 0, "exc": "key construction: " + exc_name(e)})
+            continue
         for k, digest, allow in itertools.product(ks, digests, allows):
             encs = [(util.sigencode_string, util.sigdecode_string), (util.sigencode_der, util.sigdecode_der)]
             enc, dec = encs[rot % 2]
             rot += 1
+            # entry point and decoder rotate independently of the position in the product (7 is coprime to its period)
+            rot += (1 if rot % 7 == 0 else 0)
             try:
                 sig = sk.sign_digest(digest, sigencode=enc, k=k, allow_truncate=allow)
             except BaseException:  # noqa  (RSZero / BadDigest: outside the precondition)
                 continue
-            ev = {"op": "recover", "d": d, "k": k, "digest": b2l(digest), "allow": allow}
+            ev = {"op": "recover", "d": d, "k": k, "digest": b2l(digest), "allow": allow, "signed": True}
             try:
                 if rot % 3 == 0:
                     vks = VerifyingKey.from_public_key_recovery(sig, digest, curve, hashfunc=IdHash, sigdecode=dec,
